@@ -1065,6 +1065,8 @@ func Run(c *ev.Ctx) int {
 	}
 	run(func() { laneInternalNames(c, "I/xattr", false) })
 	run(func() { laneInternalNames(c, "I/sidecar", true) })
+	run(func() { laneSettingsVsObjects(c, "O/xattr", false) })
+	run(func() { laneSettingsVsObjects(c, "O/sidecar", true) })
 	ra := c.Rng("acl")
 	for i := 0; i < c.Pick(6, 200); i++ {
 		id := fmt.Sprintf("A/acl/%d", i)
